@@ -86,7 +86,7 @@ CHECKS["C16"] = dict(
 CHECKS["C08"] = dict(
     level="exploration", design="DESIGN.md 3/C08",
     technique="property-based testing with two oracles: (A) error-free diagnostics imply success of every later stage (Sierra generation, registry validation, own Sierra checker, metadata, CASM) over generated programs and front-end-accepted token mutants under random optimisation configurations; (B) metamorphic twins from an ownership-tracking program generator: one injected use-after-move / undropped value must turn an accepted program into a rejected one",
-    text="~3,800 cases per quick run: ~900 error-free sources compiled end to end (generated, corpus, ownership programs and their accepted mutants) and ~1,800 injected twins over 10 injection kinds (by-value, let, snapshot, ref, member, partial-move, in-loop moves; consumption removed; never consumed).",
+    text="~3,800 cases per quick run: ~900 error-free sources compiled end to end (generated, corpus, ownership programs and their accepted mutants) and ~1,800 injected twins over 14 injection kinds (by-value, let, snapshot, ref, member, partial-move, in-loop moves; consumption removed; never consumed; panicable call while a value without any destructor lives, inside and outside regions that end with a panic).",
     note="Trusted: my generator's model of the move rules (monitored: a valid twin the compiler rejects is counted and bounded by the health check at 10%). The legacy non-linear gas solver is not part of the pipeline checked here (it is not an optimisation configuration and documents unsupported libfuncs).")
 
 CHECKS["C13"] = dict(
@@ -104,7 +104,7 @@ CHECKS["C12"] = dict(
 CHECKS["C20"] = dict(
     level="exploration", design="DESIGN.md 3/C20",
     technique="differential property-based testing: the same dependent compiled in two databases that differ only in one crate's cache_file (the core library's blob from generate_crate_cache, or the blob of a generated library crate the dependent calls into), under random optimisation configurations; diagnostics, Sierra and CASM compared",
-    text="640 dependents per quick run: ~440 against the corelib cache (generated programs, e2e snippets, examples; ~28 core functions per dependent on average) and ~200 against a generated library crate's cache (in half of them the corelib is cached too).",
+    text="640 dependents per quick run: ~440 against the corelib cache (generated programs, e2e snippets, examples and corelib-heavy programs composed from 39 functions over iterator adapters, ByteArray / format!, Option / Result combinators, dictionaries, spans, integer traits, u256, hashes, EC, keccak, sha256, Serde, boxes, fixed arrays) and ~200 against the cache of a generated library crate with closure-bearing functions (in half of them the corelib is cached too).",
     note="The blob is generated under the same global flags as it is used with (a different flag set is refused by the loader, a documented precondition), so the numeric-match flag stays unset. Dependents that panic on both sides are skipped.")
 
 CHECKS["C19"] = dict(
